@@ -53,7 +53,7 @@ def _run_harness(path, text, harness, extra, timeout):
     env = dict(os.environ, CARGO_NET_OFFLINE='true')
     try:
         p = subprocess.run(cmd, capture_output=True, text=True, timeout=timeout, cwd=wd, env=env)
-        out = p.stdout + '\n' + p.stderr
+        out = p.stderr + '\n' + p.stdout
         code = p.returncode
     except subprocess.TimeoutExpired:
         out, code = f'kani wall-clock timeout after {timeout}s', -1
